@@ -160,7 +160,9 @@ func genSlices(repo, out string) error {
 		if err != nil {
 			return fmt.Errorf("untranslatable: %s:0: does not parse: %v", fn, err)
 		}
-		normalizeFile(g.fset, f)
+		// the slice methods declare their counters in the short form (`index, result := 0, make(…)`):
+		// `var x int` is read as `x := 0` (ruleShortIntDecl), and `x := 0` is kept
+		normalizeFileWith(g.fset, f, normProfile{keepIntShort: true, shortIntDecl: true})
 		files = append(files, f)
 	}
 	lean := map[string]string{}
